@@ -252,23 +252,39 @@ pub fn child_main() -> ! {
         .spawn(move || {
             let prefixes: Vec<String> =
                 job["prefixes"].as_array().unwrap().iter().map(|x| x.as_str().unwrap().to_string()).collect();
-            let set: Vec<(String, String)> = job["templates"]
+            let calls: Vec<Vec<(String, String)>> = job["calls"]
                 .as_array()
                 .unwrap()
                 .iter()
-                .map(|p| (p[0].as_str().unwrap().to_string(), p[1].as_str().unwrap().to_string()))
+                .map(|b| {
+                    b.as_array()
+                        .unwrap()
+                        .iter()
+                        .map(|p| (p[0].as_str().unwrap().to_string(), p[1].as_str().unwrap().to_string()))
+                        .collect()
+                })
                 .collect();
+            let names: Vec<String> = job["names"].as_array().unwrap().iter().map(|x| x.as_str().unwrap().to_string()).collect();
+            let strict = job["strict"].as_bool().unwrap_or(true);
             let start = job["start"].as_u64().unwrap_or(0) as usize;
             let mut tera = new_tera(&prefixes);
             let out = std::io::stdout();
-            if let Err(e) = tera.add_raw_templates(set.clone()) {
-                let mut o = out.lock();
-                writeln!(o, "REJECT {}", err_class(&e)).unwrap();
-                o.flush().unwrap();
-                return;
+            for b in &calls {
+                if let Err(e) = tera.add_raw_templates(b.clone()) {
+                    if strict {
+                        let mut o = out.lock();
+                        writeln!(o, "REJECT {}", err_class(&e)).unwrap();
+                        o.flush().unwrap();
+                        return;
+                    }
+                }
             }
-            for (i, (n, _)) in set.iter().enumerate().skip(start) {
-                let r = tera.render(n, &Context::new());
+            for (i, n) in names.iter().enumerate().skip(start) {
+                // `name#block` = render_block(name, block)
+                let r = match n.split_once('#') {
+                    Some((t, b)) => tera.render_block(t, b, &Context::new()),
+                    None => tera.render(n, &Context::new()),
+                };
                 let mut o = out.lock();
                 match r {
                     Ok(s) => writeln!(o, "R {i} ok {}", s.replace('\n', " ")).unwrap(),
@@ -343,12 +359,27 @@ pub fn run_child_with(sub: &str, job: &serde_json::Value, limit: Duration) -> (V
 
 /// Renders every template of an accepted set in child processes; one outcome per template.
 pub fn render_all_in_child(prefixes: &[String], set: &[(String, String)], limit: Duration) -> Vec<ROut> {
+    let names: Vec<String> = set.iter().map(|(n, _)| n.clone()).collect();
+    render_entries_in_child(prefixes, &[set.to_vec()], true, &names, limit)
+}
+
+/// Replays `calls` (batches; with `strict` a failing batch ends the job, otherwise it is
+/// ignored like on a long-lived instance) in child processes and renders `entries`
+/// (`name` = render, `name#block` = render_block); one outcome per entry.
+pub fn render_entries_in_child(
+    prefixes: &[String],
+    calls: &[Vec<(String, String)>],
+    strict: bool,
+    entries: &[String],
+    limit: Duration,
+) -> Vec<ROut> {
     let mut outs: Vec<ROut> = vec![];
     let mut spawns = 0;
-    while outs.len() < set.len() && spawns <= set.len() {
+    let jcalls: Vec<serde_json::Value> =
+        calls.iter().map(|b| json!(b.iter().map(|(n, s)| json!([n, s])).collect::<Vec<_>>())).collect();
+    while outs.len() < entries.len() && spawns <= entries.len() {
         spawns += 1;
-        let job = json!({"prefixes": prefixes, "templates": set.iter().map(|(n, s)| json!([n, s])).collect::<Vec<_>>(),
-            "start": outs.len()});
+        let job = json!({"prefixes": prefixes, "calls": jcalls, "strict": strict, "names": entries, "start": outs.len()});
         let (lines, bad) = run_child(&job, limit);
         for l in &lines {
             if let Some(rest) = l.strip_prefix("R ") {
@@ -361,18 +392,18 @@ pub fn render_all_in_child(prefixes: &[String], set: &[(String, String)], limit:
                 }
             } else if l.starts_with("REJECT") {
                 // the parent only sends accepted sets
-                while outs.len() < set.len() {
+                while outs.len() < entries.len() {
                     outs.push(ROut::Err(l.clone()));
                 }
             }
         }
         if let Some(b) = bad {
-            if outs.len() < set.len() {
+            if outs.len() < entries.len() {
                 outs.push(if b == "timeout" { ROut::Timeout } else { ROut::Crash(b) });
             }
         }
     }
-    while outs.len() < set.len() {
+    while outs.len() < entries.len() {
         outs.push(ROut::Crash("no result".into()));
     }
     outs
